@@ -34,20 +34,43 @@ META = {
                   ('sequences_lib', '_unscale_velocity')],
     'assumptions': [
         'E1: doubles are exact reals; rolls of at most 8 frames',
-        'velocities in 1..127, max_velocity 127',
+        'velocities in 1..127, max_velocity 127 / 200 / 64',
+        'notes end by total_time (a note ending later makes the weights '
+        'assignment raise - reported, not checked)',
+        'onset_overlap=False, weights / offsets / onset_velocities rolls: one '
+        'note, no delay, no occupancy threshold; offset_length_ms > 0 only '
+        'with the whole offset before total_time; the weight decay after the '
+        'onset and the single active frame painted after an onset that '
+        'swallows its note are left free (undocumented)',
+        'velocity estimates in [0, 1] (clamp and NaN branch of '
+        '_unscale_velocity not exercised)',
         'composition H3 only for power-of-two frame rates (1/fps exact); the '
         'other rates are the subject of lemma L-C18',
         'L-C18: frame index k in [0, 10^5]',
     ],
     'bounds': {
-        'quick': 'painting: N<=2 notes, <=6 frames; decoding: T<=3 frames x '
-                 'K<=2 pitches of symbolic bits (with onset / offset matrices '
-                 'T<=2)',
+        'quick': 'painting: N<=2 notes, <=6 frames, pitch windows 60..61, '
+                 '60..60, 0..1, 126..127; keyword jobs (onset_overlap, '
+                 'onset_upweight, offset_length_ms, default onset_length_ms, '
+                 'occupancy with length_ms / delay, unknown onset_mode, two '
+                 'control changes on controllers 0/64/127, empty sequence) '
+                 'N<=1, <=4 frames; decoding: T<=3 frames x K<=2 pitches of '
+                 'symbolic bits (with onset / offset matrices T<=2; offsets '
+                 'alone T=3), symbolic velocity / instrument / program / qpm, '
+                 'default and explicit velocity scale / bias and pitch '
+                 'offset; composition through active alone, through onsets + '
+                 'offsets + onset velocities, and through the onsets-only '
+                 'decoder (N<=2, 3-4 frames)',
         'thorough': 'painting <=8 frames, all listed frame rates; decoding '
-                    'T<=5 x K<=2',
+                    'T<=5 x K<=2; keyword jobs <=5 frames',
     },
-    'outside': ['rolls larger than the bounds', 'weights roll', 'offsets roll',
-                'onsets delayed to before time 0 (negative onset_delay_ms)'],
+    'outside': ['rolls larger than the bounds',
+                'onsets delayed to before time 0 (negative onset_delay_ms)',
+                'notes ending after total_time',
+                'default velocity of pianoroll_onsets_to_note_sequence '
+                '(FINDING-CANDIDATE in jobs())',
+                'order of the decoded notes, dtypes of the rolls',
+                'real-valued (non 0/1) activations, empty matrices'],
 }
 
 _FPS = {'8': 8, '16': 16, '32': 32, '31.25': 31.25, '50': 50, '62.5': 62.5,
@@ -67,17 +90,27 @@ def h_paint(c):
   N = c.params['N']
   fps = _fps(c)
   fmax = c.params['frames']
-  lo, hi = 60, 61
+  lo, hi = c.params.get('lo', 60), c.params.get('hi', 61)
   mode = c.params['mode']
   delay = c.params.get('delay_ms', 0.0)
   occ = c.params.get('occupancy', 0.0)
+  overlap = c.params.get('overlap', True)
+  rolls = c.params.get('rolls', False)
+  off_ms = c.params.get('offset_len_ms')
+  upw = c.params.get('upweight')
+  cc2 = c.params.get('cc2', False)
+  blank = c.params.get('blank', False)
+  if not overlap or rolls:
+    # the oracles of these variants are written for one note, painted without
+    # delay and without the blank frame
+    assert N <= 1 and delay == 0 and not blank and occ == 0
   ns = pb.NoteSequence()
   notes = []
   for i in range(N):
     s = c.real('n%d_s' % i, 0)
     e = c.real('n%d_e' % i)
     c.assume(e >= s)
-    p = c.int('n%d_p' % i, 59, 62)
+    p = c.int('n%d_p' % i, lo - 1, hi + 1)
     v = c.int('n%d_v' % i, 1, 127)
     ns.notes.add(start_time=s, end_time=e, pitch=p, velocity=v)
     notes.append(dict(s=s, e=e, p=p, v=v))
@@ -89,14 +122,35 @@ def h_paint(c):
       # speaks of the note's own first frame; int() truncates towards zero
       # there while floor() would not)
       c.assume(n['s'] + delay / 1000. >= 0)
+    if off_ms:
+      # the whole offset fits before total_time (otherwise the implementation
+      # moves it back, which is not documented)
+      c.assume(n['e'] + off_ms / 1000. <= tt)
   c.assume(tt * fps + 1 < fmax + 1)
   ns.total_time = tt
-  cc_t = c.real('cc_t', 0)
-  ns.control_changes.add(time=cc_t, control_number=64, control_value=c.int(
-      'cc_v', 0, 127))
+  ccs = []
+  if cc2:
+    # two control changes, controller numbers at both ends and in the middle
+    for i in range(2):
+      t = c.real('cc%d_t' % i, 0)
+      num = c.choice('cc%d_n' % i, (0, 64, 127))
+      val = c.int('cc%d_v' % i, 0, 127)
+      ns.control_changes.add(time=t, control_number=num, control_value=val)
+      ccs.append((t, num, val))
+    cc_t = None
+  else:
+    cc_t = c.real('cc_t', 0)
+    ns.control_changes.add(time=cc_t, control_number=64, control_value=c.int(
+        'cc_v', 0, 127))
   before = c.snapshot(ns)
   kw = dict(onset_mode=mode, onset_delay_ms=delay,
             min_frame_occupancy_for_label=occ)
+  if not overlap:
+    kw['onset_overlap'] = False
+  if off_ms is not None:
+    kw['offset_length_ms'] = off_ms
+  if upw is not None:
+    kw['onset_upweight'] = upw
   ow = c.params.get('onset_window')
   if ow is not None:
     kw['onset_window'] = ow
@@ -106,8 +160,10 @@ def h_paint(c):
   if 'max_velocity' in c.params:
     kw['max_velocity'] = maxv
   if mode == 'length_ms':
-    kw['onset_length_ms'] = c.params.get('onset_len_ms', 30)
-  blank = c.params.get('blank', False)
+    if c.params.get('onset_len_default'):
+      on_ms = 0  # the documented default: the onset is the first frame only
+    else:
+      on_ms = kw['onset_length_ms'] = c.params.get('onset_len_ms', 30)
   if blank:
     kw['add_blank_frame_before_onset'] = True
   if maxv < 127:
@@ -134,6 +190,13 @@ def h_paint(c):
           len(roll.control_changes) == T,
           'every roll has floor(total_time*fps + 1) frames')
   c.check(len(act[0]) == hi - lo + 1, 'one column per in-range pitch')
+  wts, offs, onv = roll.weights, roll.offsets, roll.onset_velocities
+  c.check(len(wts) == T and len(offs) == T and len(onv) == T,
+          'every roll has floor(total_time*fps + 1) frames')
+  c.check(all(len(r[f]) == hi - lo + 1 for r in (act, ons, vel, wts, offs, onv)
+              for f in range(T)) and
+          all(len(roll.control_changes[f]) == 128 for f in range(T)),
+          'one column per in-range pitch in every roll, 128 controller columns')
 
   def frames(s, e):
     sf = c.Floor(s * fps)
@@ -145,8 +208,16 @@ def h_paint(c):
     ef = c.Max(sf + 1, ef)
     return sf, ef
 
+  def cell(r, f, p):
+    x = r[f][p - lo]
+    return x if c.mode == 'sym' else float(x)
+
+  def bit(cond):
+    return c.If(cond, 1.0, 0.0) if c.mode == 'sym' else (1.0 if cond else 0.0)
+
   # one query per roll: the per-cell conditions are collected and conjoined
-  acc = {'a': [], 'v': [], 'o': [], 'c': []}
+  acc = {'a': [], 'v': [], 'o': [], 'c': [], 'x': [], 'w': [], 'ov': [],
+         'no': []}
 
   class _Acc(object):
 
@@ -157,16 +228,44 @@ def h_paint(c):
       acc[self.key].append(cond)
 
   chk_a, chk_v, chk_o, chk_c = _Acc('a'), _Acc('v'), _Acc('o'), _Acc('c')
+  upweight = 5.0 if upw is None else upw  # ONSET_UPWEIGHT of the signature
   # the notes in the order the implementation paints them (by start time,
   # storage order on ties)
   for f in range(T):
     for p in range(lo, hi + 1):
+      # onset frames [a, b) of every note
+      want = []
+      orng = []
+      for n in notes:
+        os_, oe_ = n['s'] + delay / 1000., n['e'] + delay / 1000.
+        if mode == 'window':
+          sf, _ = frames(os_, oe_)
+          a = c.Max(0, sf - ow)
+          b = c.Min(T, sf + ow + 1)
+        else:
+          oe2 = c.Min(oe_, os_ + on_ms / 1000.)
+          a, b = frames(os_, oe2)
+        orng.append((a, b))
+        want.append(c.And(c.eq(n['p'], p), a <= f, f < b))
+      won = c.Or(want)
       covering = []
       for i, n in enumerate(notes):
         sf, ef = frames(n['s'], n['e'])
-        covering.append(c.And(c.eq(n['p'], p), sf <= f, f < ef))
+        if overlap:
+          covering.append(c.And(c.eq(n['p'], p), sf <= f, f < ef))
+        else:
+          # the active frames begin where the onset ends
+          covering.append(c.And(c.eq(n['p'], p), orng[i][1] <= f, f < ef))
       on = c.Or(covering)
       on_v = on
+      # onset_overlap=False: when the onset swallows the whole note the
+      # implementation still paints one active frame right after the onset;
+      # that frame is not documented and is left free here
+      free = False
+      if not overlap and notes:
+        _, ef = frames(notes[0]['s'], notes[0]['e'])
+        free = c.And(c.eq(notes[0]['p'], p), c.eq(orng[0][1], f),
+                     orng[0][1] >= ef)
       if blank:
         # the frame before an onset (if there is one) is forced silent; no
         # note painted later can cover it (notes are painted by start time)
@@ -175,11 +274,12 @@ def h_paint(c):
           sf, _ = frames(n['s'], n['e'])
           blanked.append(c.And(c.eq(n['p'], p), sf >= 1, c.eq(sf - 1, f)))
         on = c.And(on, c.Not(c.Or(blanked)))
-      chk_a(c.eq(act[f][p - lo] if c.mode == 'sym' else float(act[f][p - lo]),
-                 c.If(on, 1.0, 0.0) if c.mode == 'sym' else
-                 (1.0 if on else 0.0)),
-              'active exactly from floor(start*fps) up to ceil(end*fps) (at '
-              'least one frame)')
+      chk_a(c.Or(free, c.eq(cell(act, f, p), bit(on))),
+            'active exactly from floor(start*fps) up to ceil(end*fps) (at '
+            'least one frame)')
+      if not overlap:
+        acc['no'].append(c.Not(c.And(c.eq(cell(act, f, p), 1.0),
+                                     c.eq(cell(ons, f, p), 1.0))))
       # velocity of the covering note painted last
       expv = 0
       for i, n in enumerate(notes):
@@ -189,34 +289,63 @@ def h_paint(c):
                  for j in range(N) if j != i]
         last = c.And(covering[i], c.Not(c.Or(later or [False])))  # (on_v)
         expv = c.If(last, n['v'] / maxv, expv)
-      chk_v(c.approx(vel[f][p - lo], expv),
+      chk_v(c.Or(free, c.approx(vel[f][p - lo], expv)),
             'velocity scaled into (0,1] on active frames, 0 elsewhere')
       if maxv >= 127:
         chk_v(c.Implies(on_v, c.And(expv > 0, expv <= 1)), 'velocity in (0,1]')
       # onsets
-      want = []
-      for n in notes:
-        os_, oe_ = n['s'] + delay / 1000., n['e'] + delay / 1000.
-        if mode == 'window':
-          sf, _ = frames(os_, oe_)
-          a = c.Max(0, sf - ow)
-          b = c.Min(T, sf + ow + 1)
-        else:
-          oe2 = c.Min(oe_, os_ + kw['onset_length_ms'] / 1000.)
-          a, b = frames(os_, oe2)
-        want.append(c.And(c.eq(n['p'], p), a <= f, f < b))
-      won = c.Or(want)
-      chk_o(c.eq(ons[f][p - lo] if c.mode == 'sym' else float(ons[f][p - lo]),
-                 c.If(won, 1.0, 0.0) if c.mode == 'sym' else
-                 (1.0 if won else 0.0)),
+      chk_o(c.eq(cell(ons, f, p), bit(won)),
             'onset in the first frame +- the onset window (clipped)')
-  # control change row
-  cf, _ = frames(cc_t, 0)
-  for f in range(T):
-    got = roll.control_changes[f][64]
-    chk_c(c.eq(got if c.mode == 'sym' else int(got),
-               c.If(c.eq(cf, f), ns.control_changes[0].control_value + 1, 0)),
-          'control change marked in its frame as value+1')
+      if rolls:
+        # offsets: from the frame holding the note's end, for offset_length_ms
+        # (at least one frame)
+        wx = []
+        for n in notes:
+          a, b = frames(n['e'], n['e'] + (off_ms or 0) / 1000.)
+          wx.append(c.And(c.eq(n['p'], p), a <= f, f < b))
+        acc['x'].append(c.eq(cell(offs, f, p), bit(c.Or(wx))))
+        # weights: onset frames carry onset_upweight, frames the note does not
+        # touch keep weight 1 (the decay in between is not documented)
+        w = cell(wts, f, p)
+        acc['w'].append(c.And(
+            c.Implies(won, c.approx(w, upweight)),
+            c.Implies(c.Not(c.Or(won, on, free)), c.eq(w, 1.0))))
+        # onset velocities: the note's scaled velocity in the onset frames in
+        # which it sounds, 0 outside the onset frames
+        ov = onv[f][p - lo]
+        acc['ov'].append(c.And(
+            c.Implies(c.Not(won), c.approx(ov, 0)),
+            c.Implies(c.And(won, on), c.approx(ov, expv))))
+  # control change rows
+  if cc2:
+    for f in range(T):
+      for num in range(128):
+        got = roll.control_changes[f][num]
+        got = got if c.mode == 'sym' else int(got)
+        cand = [(c.eq(frames(t, 0)[0], f), val + 1)
+                for t, n_, val in ccs if n_ == num]
+        hit = c.Or([cd for cd, _ in cand])
+        # (two changes of one controller in one frame: either may stand)
+        chk_c(c.And(c.Implies(hit, c.Or([c.And(cd, c.eq(got, val))
+                                         for cd, val in cand])),
+                    c.Implies(c.Not(hit), c.eq(got, 0))),
+              'control change marked in its frame as value+1')
+    c.cover('two control changes in one cell',
+            c.And(ccs[0][1] == ccs[1][1],
+                  c.eq(frames(ccs[0][0], 0)[0], frames(ccs[1][0], 0)[0]),
+                  frames(ccs[0][0], 0)[0] < T))
+    c.cover('control change after the last frame dropped',
+            frames(ccs[0][0], 0)[0] >= T)
+  else:
+    cf, _ = frames(cc_t, 0)
+    for f in range(T):
+      got = roll.control_changes[f][64]
+      chk_c(c.eq(got if c.mode == 'sym' else int(got),
+                 c.If(c.eq(cf, f), ns.control_changes[0].control_value + 1, 0)),
+            'control change marked in its frame as value+1')
+  if not overlap:
+    c.check(c.And(acc['no']),
+            'onset_overlap=False: no frame is both onset and active')
   c.check(c.And(acc['a']), 'active exactly from floor(start*fps) up to '
           'ceil(end*fps) (at least one frame)')
   c.check(c.And(acc['v']), 'velocity scaled into (0,1] on active frames, 0 '
@@ -224,12 +353,26 @@ def h_paint(c):
   c.check(c.And(acc['o']), 'onset in the first frame +- the onset window '
           '(clipped)')
   c.check(c.And(acc['c']), 'control change marked in its frame as value+1')
-  c.cover('out-of-range pitch ignored', c.eq(notes[0]['p'], 59))
+  if rolls:
+    c.check(c.And(acc['x']), 'offset marked from the frame of the note end for '
+            'offset_length_ms (at least one frame)')
+    c.check(c.And(acc['w']), 'weights: onset_upweight on onset frames, 1 where '
+            'the note is absent')
+    c.check(c.And(acc['ov']), 'onset_velocities: scaled velocity on sounding '
+            'onset frames, 0 off the onsets')
+  if not notes:
+    c.cover('empty sequence painted')
+    return
+  c.cover('out-of-range pitch ignored', c.eq(notes[0]['p'], lo - 1))
   c.cover('note shorter than one frame',
           c.And(c.eq(c.Floor(notes[0]['s'] * fps),
-                     c.Ceil(notes[0]['e'] * fps)), c.eq(notes[0]['p'], 60)))
+                     c.Ceil(notes[0]['e'] * fps)), c.eq(notes[0]['p'], lo)))
   c.cover('note end exactly on a frame boundary',
-          c.And(c.eq(notes[0]['e'] * fps, 2), c.eq(notes[0]['p'], 60)))
+          c.And(c.eq(notes[0]['e'] * fps, 2), c.eq(notes[0]['p'], lo)))
+  if not overlap:
+    c.cover('onset swallows the whole note',
+            c.And(c.eq(notes[0]['p'], lo),
+                  orng[0][1] >= frames(notes[0]['s'], notes[0]['e'])[1]))
 
 
 def _bits(c, name, T, Kp):
@@ -272,6 +415,23 @@ def _runs(col, ons=None, offs=None):
   return notes
 
 
+def _unchanged(c, arr, rows):
+  """The matrix handed to the decoder still holds the bits it was built from."""
+  ok = []
+  for t, r in enumerate(rows):
+    for k, b in enumerate(r):
+      x = arr[t][k]
+      if c.mode != 'sym':
+        ok.append(float(x) == (1.0 if b else 0.0))
+      elif x is b:
+        ok.append(True)
+      elif isinstance(x, bool) or type(x).__name__ == 'SymBool':
+        ok.append(c.eq(x, b))
+      else:
+        ok.append(c.eq(x != 0, b))
+  return c.And(ok)
+
+
 def h_decode(c):
   sl = c.mod('sequences_lib')
   T, Kp = c.params['T'], c.params['K']
@@ -284,17 +444,31 @@ def h_decode(c):
   use_vel = c.params.get('velocities')
   vv = None
   kw = {}
+  scale, bias = 80, 10  # the documented defaults
   if use_vel:
     # velocity estimates at the onsets (only read when onsets are supplied)
     vv = [[c.real('v_%d_%d' % (t, k), 0, 1) for k in range(Kp)]
           for t in range(T)]
-    kw = dict(velocity_values=c.np.array([list(r) for r in vv]),
-              velocity_scale=100, velocity_bias=5)
+    kw = dict(velocity_values=c.np.array([list(r) for r in vv]))
+    if not c.params.get('vel_defaults'):
+      scale, bias = 100, 5
+      kw.update(velocity_scale=scale, velocity_bias=bias)
+  # note attributes: the documented defaults unless the job passes its own
+  vel0, ins, prg, qpm, base = 70, 0, 0, 120, 21
+  if c.params.get('meta'):
+    vel0 = c.int('vel', 1, 127)
+    ins = c.int('ins', 0, 15)
+    prg = c.int('prg', 0, 127)
+    qpm = c.real('qpm', 1, 300)
+    kw.update(velocity=vel0, instrument=ins, program=prg, qpm=qpm)
+    base = 0  # min_midi_pitch left at its default, the lowest MIDI pitch
+  else:
+    kw['min_midi_pitch'] = base
+  a_fr = _to_np(c, fr)
+  a_on = _to_np(c, on) if use_on else None
+  a_of = _to_np(c, of) if use_off else None
   seq = sl.pianoroll_to_note_sequence(
-      _to_np(c, fr), fps, min_ms,
-      min_midi_pitch=21,
-      onset_predictions=_to_np(c, on) if use_on else None,
-      offset_predictions=_to_np(c, of) if use_off else None, **kw)
+      a_fr, fps, min_ms, onset_predictions=a_on, offset_predictions=a_of, **kw)
   exp = []
   # sym mode: frame length is the Python float 1/fps, as in the implementation
   fl_sec = 1 / fps
@@ -305,10 +479,11 @@ def h_decode(c):
     for (a, b) in _runs(col, oc, fc):
       s, e = a * fl_sec, b * fl_sec
       if use_vel and use_on:
-        vel = c.Floor(vv[a][k] * 100 + 5)  # the estimate at the note's onset
+        # the estimate at the note's onset
+        vel = c.Floor(vv[a][k] * scale + bias)
       else:
-        vel = 70
-      exp.append((c.Not((e - s) * 1000 < min_ms), (s, e, k + 21, vel)))
+        vel = vel0
+      exp.append((c.Not((e - s) * 1000 < min_ms), (s, e, k + base, vel)))
   got = [(n.start_time, n.end_time, n.pitch, n.velocity) for n in seq.notes]
   c.check(K.multiset_eq(c, got, exp),
           'notes = maximal runs of active frames (minus those shorter than '
@@ -316,8 +491,22 @@ def h_decode(c):
   c.check(c.eq(seq.total_time, (T + 1) * fl_sec), 'total_time covers the roll')
   for n in seq.notes:
     c.check(n.end_time <= seq.total_time, 'notes inside the sequence')
+  c.check(c.And([c.And(c.eq(n.instrument, ins), c.eq(n.program, prg))
+                 for n in seq.notes]),
+          'every note carries the instrument and program arguments')
+  c.check(len(seq.tempos) == 1 and bool(c.eq(seq.tempos[0].time, 0)),
+          'one tempo at time 0')
+  c.check(c.approx(seq.tempos[0].qpm, qpm, 1e-9), 'tempo = the qpm argument')
+  c.check(c.And([_unchanged(c, a_fr, fr)] +
+                ([_unchanged(c, a_on, on)] if use_on else []) +
+                ([_unchanged(c, a_of, of)] if use_off else [])),
+          'frame / onset / offset matrices of the caller unchanged')
   c.cover('a run is dropped for being too short',
           c.Or([c.Not(cd) for cd, _ in exp] or [False]))
+  if use_off and not use_on:
+    c.cover('an offset cuts a run in two',
+            c.And(fr[0][0], fr[1][0], fr[2][0], c.Not(of[0][0]), of[1][0],
+                  c.Not(of[2][0])) if T >= 3 else False)
 
 
 def h_onsets_only(c):
@@ -325,25 +514,78 @@ def h_onsets_only(c):
   T, Kp = c.params['T'], c.params['K']
   fps = _fps(c)
   on = _bits(c, 'o', T, Kp)
-  dur = c.real('dur', 0, 1)
-  seq = sl.pianoroll_onsets_to_note_sequence(
-      _to_np(c, on), fps, dur,
-      min_midi_pitch=21)
+  args, kw = [], {}
+  if c.params.get('defaults'):
+    # note_duration_seconds and min_midi_pitch at their documented defaults
+    dur, base = 0.05, 0
+  else:
+    dur, base = c.real('dur', 0, 1), 21
+    args = [dur]
+    kw['min_midi_pitch'] = base
+  ins, prg, qpm = 0, 0, 120
+  if c.params.get('meta'):
+    ins = c.int('ins', 0, 15)
+    prg = c.int('prg', 0, 127)
+    qpm = c.real('qpm', 1, 300)
+    kw.update(instrument=ins, program=prg, qpm=qpm)
+  vmode = c.params.get('vel')
+  vv = None
+  if vmode:
+    # a velocity estimate in [0, 1] per cell
+    vv = [[c.real('v_%d_%d' % (t, k), 0, 1) for k in range(Kp)]
+          for t in range(T)]
+    kw['velocity_values'] = c.np.array([list(r) for r in vv])
+    scale, bias = 80, 10  # documented defaults
+    if vmode == 'explicit':
+      scale, bias = 100, 5
+      kw.update(velocity_scale=scale, velocity_bias=bias)
+  a_on = _to_np(c, on)
+  seq = sl.pianoroll_onsets_to_note_sequence(a_on, fps, *args, **kw)
   fl_sec = 1 / fps
-  exp = [(on[t][k], (t * fl_sec, t * fl_sec + dur, k + 21))
+  exp = [(on[t][k], (t * fl_sec, t * fl_sec + dur, k + base))
          for t in range(T) for k in range(Kp)]
   got = [(n.start_time, n.end_time, n.pitch) for n in seq.notes]
   c.check(K.multiset_eq(c, got, exp), 'one note per set onset bit')
   c.check(c.eq(seq.total_time, T * fl_sec + dur), 'total_time')
+  if vmode:
+    expv = [(cd, key + (c.Floor(vv[t][k] * scale + bias),))
+            for (cd, key), (t, k) in zip(exp, [(t, k) for t in range(T)
+                                               for k in range(Kp)])]
+    gotv = [(n.start_time, n.end_time, n.pitch, n.velocity) for n in seq.notes]
+    c.check(K.multiset_eq(c, gotv, expv),
+            'each note has the MIDI velocity int(estimate*scale + bias) of its '
+            'own cell')
+  # FINDING-CANDIDATE (job left out, see jobs()): without velocity_values the
+  # notes should carry the `velocity` argument ("Default note velocity if
+  # velocity_values is not provided", 70 by default) but come out with
+  # velocity 90 whatever the argument (>= 1) is.
+  if c.params.get('default_velocity'):
+    c.check(c.And([c.eq(n.velocity, 70) for n in seq.notes]),
+            'default velocity 70 when velocity_values is not given')
+  c.check(c.And([c.And(c.eq(n.instrument, ins), c.eq(n.program, prg))
+                 for n in seq.notes]),
+          'every note carries the instrument and program arguments')
+  c.check(len(seq.tempos) == 1 and bool(c.eq(seq.tempos[0].time, 0)),
+          'one tempo at time 0')
+  c.check(c.approx(seq.tempos[0].qpm, qpm, 1e-9), 'tempo = the qpm argument')
+  c.check(_unchanged(c, a_on, on), 'onset matrix of the caller unchanged')
 
 
 def h_inverse(c):
-  """On the frame grid (power-of-two rates): decode(paint(seq)) == seq."""
+  """On the frame grid (power-of-two rates): decode(paint(seq)) == seq.
+
+  via='active' (default): the active roll alone, velocity 70 (the decoder's
+  default).  via='onsets': active + onsets (window 0) + offsets + onset
+  velocities go back through pianoroll_to_note_sequence and the velocities
+  come back too.  via='onsets_only': the onsets roll and the onset velocities
+  through pianoroll_onsets_to_note_sequence give the note starts back.
+  """
   sl = c.mod('sequences_lib')
   pb = c.pb
   fps = _fps(c)
   N = c.params['N']
   F = c.params['frames']
+  via = c.params.get('via', 'active')
   fl_sec = 1 / fps
   ns = pb.NoteSequence()
   notes = []
@@ -352,21 +594,66 @@ def h_inverse(c):
     b = c.int('n%d_b' % i, 1, F)
     c.assume(a < b)
     p = c.int('n%d_p' % i, 60, 61)
+    v = 70 if via == 'active' else c.int('n%d_v' % i, 1, 127)
     ns.notes.add(start_time=a * fl_sec, end_time=b * fl_sec, pitch=p,
-                 velocity=70)
-    notes.append((a, b, p))
+                 velocity=v)
+    notes.append((a, b, p, v))
   for i in range(N):
     for j in range(i + 1, N):
       A, B = notes[i], notes[j]
       # at least one silent frame between same-pitch notes
       c.assume(c.Or(c.Not(c.eq(A[2], B[2])), A[1] < B[0], B[1] < A[0]))
   ns.total_time = F * fl_sec
-  roll = sl.sequence_to_pianoroll(ns, fps, 60, 61)
-  back = sl.pianoroll_to_note_sequence(roll.active, fps, 0, min_midi_pitch=60)
-  got = [(n.start_time, n.end_time, n.pitch) for n in back.notes]
-  exp = [(True, (a * fl_sec, b * fl_sec, p)) for a, b, p in notes]
+  if via == 'active':
+    roll = sl.sequence_to_pianoroll(ns, fps, 60, 61)
+    back = sl.pianoroll_to_note_sequence(roll.active, fps, 0, min_midi_pitch=60)
+    got = [(n.start_time, n.end_time, n.pitch, n.velocity) for n in back.notes]
+    exp = [(True, (a * fl_sec, b * fl_sec, p, v)) for a, b, p, v in notes]
+  elif via == 'onsets':
+    # an estimate v/127 goes back to int(v/127 * 127 + 0.5) = v
+    roll = sl.sequence_to_pianoroll(ns, fps, 60, 61, onset_window=0)
+    back = sl.pianoroll_to_note_sequence(
+        roll.active, fps, 0, min_midi_pitch=60, onset_predictions=roll.onsets,
+        offset_predictions=roll.offsets, velocity_values=roll.onset_velocities,
+        velocity_scale=127, velocity_bias=0.5)
+    got = [(n.start_time, n.end_time, n.pitch, n.velocity) for n in back.notes]
+    exp = [(True, (a * fl_sec, b * fl_sec, p, v)) for a, b, p, v in notes]
+  else:
+    dur = c.real('dur', 0, 1)
+    roll = sl.sequence_to_pianoroll(ns, fps, 60, 61, onset_window=0)
+    back = sl.pianoroll_onsets_to_note_sequence(
+        roll.onsets, fps, dur, min_midi_pitch=60,
+        velocity_values=roll.onset_velocities, velocity_scale=127,
+        velocity_bias=0.5)
+    got = [(n.start_time, n.end_time, n.pitch, n.velocity) for n in back.notes]
+    exp = [(True, (a * fl_sec, a * fl_sec + dur, p, v)) for a, b, p, v in notes]
   c.check(K.multiset_eq(c, got, exp),
           'decode(paint(notes on the grid)) gives the same notes back')
+
+
+def h_bad_mode(c):
+  """An unknown onset_mode is a ValueError (documented under Raises) as soon as
+  a note of the pitch window has to be labelled."""
+  sl = c.mod('sequences_lib')
+  ns = c.pb.NoteSequence()
+  s = c.real('n0_s', 0)
+  e = c.real('n0_e')
+  c.assume(e >= s)
+  p = c.int('n0_p', 59, 62)
+  ns.notes.add(start_time=s, end_time=e, pitch=p, velocity=c.int('n0_v', 1, 127))
+  tt = c.real('tt', 0)
+  c.assume(e <= tt)
+  c.assume(tt * 8 < 3)
+  ns.total_time = tt
+  mode = c.choice('mode', ('Window', 'length', ''))
+  _, err = c.raises(sl.sequence_to_pianoroll, ns, 8, 60, 61, onset_mode=mode)
+  inside = c.And(p >= 60, p <= 61)
+  if err is None:
+    c.check(c.Not(inside), 'unknown onset_mode accepted')
+    c.cover('no note to label: unknown mode goes unnoticed')
+  else:
+    c.check(isinstance(err, ValueError), 'unknown onset_mode: ValueError')
+    c.cover('unknown onset_mode rejected')
 
 
 HARNESSES = {
@@ -374,6 +661,13 @@ HARNESSES = {
     'h_decode': h_decode,
     'h_onsets_only': h_onsets_only,
     'h_inverse': h_inverse,
+    'h_bad_mode': h_bad_mode,
+    # the same harnesses under a second name: jobs for the keyword arguments
+    # and result fields that the main grid leaves at their defaults
+    'h_paint_kw': h_paint,
+    'h_decode_kw': h_decode,
+    'h_onsets_only_kw': h_onsets_only,
+    'h_inverse_via': h_inverse,
 }
 
 # ---------------------------------------------------------------------------
@@ -538,6 +832,51 @@ def jobs(tier):
   add('h_onsets_only', T=2, K=2, fps='62.5')
   add('h_inverse', N=1, fps='16', frames=4)
   add('h_inverse', N=2, fps='32', frames=4, budget=600)
+  # --- keyword arguments and result fields away from their defaults
+  # onset_overlap=False in both onset modes (+ weights / offsets / onset
+  # velocities, non-default onset_upweight, window at the top of the range)
+  add('h_paint_kw', N=1, fps='16', frames=3, mode='window', overlap=False,
+      rolls=True, upweight=3.0, lo=126, hi=127)
+  add('h_paint_kw', N=1, fps='8', frames=3, mode='length_ms', onset_len_ms=200,
+      overlap=False)
+  # onset_length_ms at its default 0, single-pitch window, the other rolls
+  add('h_paint_kw', N=1, fps='50', frames=3, mode='length_ms',
+      onset_len_default=True, rolls=True, lo=60, hi=60)
+  # offset_length_ms, window at the bottom of the MIDI range
+  add('h_paint_kw', N=1, fps='16', frames=4, mode='window', offset_len_ms=100.0,
+      rolls=True, lo=0, hi=1)
+  # empty sequence; two control changes on controllers 0 / 64 / 127
+  add('h_paint_kw', N=0, fps='8', frames=3, mode='window', cc2=True, rolls=True)
+  # min_frame_occupancy_for_label together with length_ms onsets / a delay
+  add('h_paint_kw', N=1, fps='100', frames=3, mode='length_ms', onset_len_ms=15,
+      occupancy=0.25)
+  add('h_paint_kw', N=1, fps='62.5', frames=3, mode='window', delay_ms=8.0,
+      occupancy=0.25)
+  add('h_bad_mode')
+  # offsets without onsets
+  add('h_decode_kw', T=3, K=1, fps='50', offsets=True)
+  # velocity / instrument / program / qpm arguments, default pitch offset
+  add('h_decode_kw', T=2, K=2, fps='16', meta=True)
+  # default velocity_scale / velocity_bias
+  add('h_decode_kw', T=2, K=1, fps='16', onsets=True, velocities=True,
+      vel_defaults=True, meta=True)
+  add('h_onsets_only_kw', T=2, K=1, fps='16', defaults=True, vel='default',
+      meta=True)
+  add('h_onsets_only_kw', T=2, K=2, fps='62.5', vel='explicit')
+  # FINDING-CANDIDATE: pianoroll_onsets_to_note_sequence(np.array([[1.0]]), 16)
+  # (no velocity_values) returns a note of velocity 90, not the documented
+  # default 70; velocity=100 gives 90 too, velocity=0 gives 10: the argument
+  # goes through _unscale_velocity as if it were an estimate in [0, 1].
+  # add('h_onsets_only_kw', T=1, K=1, fps='16', default_velocity=True)
+  # FINDING-CANDIDATE (input outside the well-formedness assumption e <= tt):
+  # one note [0.0, 1.0] pitch 60, total_time=0.5, fps=8, window 60..61 makes
+  # sequence_to_pianoroll raise ValueError (could not broadcast input array
+  # from shape (6,) into shape (3,)) in the weights assignment, so no job
+  # lets notes end after total_time.
+  # the composition through the onset / offset / onset-velocity rolls
+  add('h_inverse_via', N=2, fps='16', frames=3, via='onsets', budget=600)
+  add('h_inverse_via', N=2, fps='32', frames=3, via='onsets_only', budget=600)
+  add('h_inverse_via', N=1, fps='8', frames=4, via='onsets')
   if deep:
     for fps in _FPS:
       add('h_paint', N=2, fps=fps, frames=6, mode='window', budget=2400,
@@ -554,6 +893,22 @@ def jobs(tier):
     add('h_decode', T=2, K=2, fps='32', onsets=True, offsets=True, budget=2400,
         required=False)
     add('h_onsets_only', T=3, K=2, fps='100', budget=900)
+    add('h_paint_kw', N=1, fps='32', frames=5, mode='window', overlap=False,
+        rolls=True, upweight=2.5, onset_window=2, budget=1800)
+    add('h_paint_kw', N=1, fps='62.5', frames=5, mode='length_ms',
+        onset_len_ms=40, overlap=False, rolls=True, offset_len_ms=20.0,
+        budget=1800)
+    add('h_paint_kw', N=1, fps='50', frames=3, mode='window', cc2=True,
+        rolls=True, lo=0, hi=0, budget=1800)
+    add('h_decode_kw', T=4, K=1, fps='31.25', offsets=True, meta=True,
+        budget=1800)
+    add('h_decode_kw', T=3, K=1, fps='8', onsets=True, offsets=True,
+        velocities=True, vel_defaults=True, meta=True, budget=1800)
+    add('h_onsets_only_kw', T=3, K=2, fps='50', defaults=True, vel='default',
+        meta=True, budget=900)
+    add('h_inverse_via', N=2, fps='8', frames=5, via='onsets', budget=2400)
+    add('h_inverse_via', N=2, fps='16', frames=5, via='onsets_only',
+        budget=2400)
     for fps in ('8', '16', '32'):
       add('h_inverse', N=2, fps=fps, frames=6, budget=2400)
   return J
